@@ -42,17 +42,46 @@ pub fn emit_struct(r#struct: &StructInner) -> String {
     )
 }
 
-/// The literal of a constant as Java source: a literal with a fraction or an exponent is a
-/// `double` in Java, so a `float` constant needs the `f` suffix.
+/// The literal of a constant as Java source.
+///
+/// A literal with a fraction or an exponent is a `double` in Java, so a `float` constant needs
+/// the `f` suffix. An integer constant is written by value as its Java carrier holds it: the
+/// carriers are signed (`byte`, `int`, `long`) or 16 bits unsigned (`char`), an `int` literal
+/// with leading zeros is octal, and a 64-bit literal needs the `L` suffix.
 pub fn const_literal(r#const: &Const) -> String {
-    let mut value = r#const.value.clone();
-    if matches!(r#const.r#type, idlc_mir::Primitive::Float32)
-        && !value.contains(['x', 'X'])
-        && value.contains(['.', 'e', 'E'])
-    {
-        value.push('f');
+    use idlc_mir::Primitive::{
+        Float32, Float64, Int16, Int32, Int64, Int8, Uint16, Uint32, Uint64, Uint8,
+    };
+    let literal = &r#const.value;
+    if matches!(r#const.r#type, Float32 | Float64) {
+        let mut value = literal.clone();
+        if matches!(r#const.r#type, Float32)
+            && !value.contains(['x', 'X'])
+            && value.contains(['.', 'e', 'E'])
+        {
+            value.push('f');
+        }
+        return value;
     }
-    value
+    let (negative, digits) = literal
+        .strip_prefix('-')
+        .map_or((false, literal.as_str()), |digits| (true, digits));
+    let magnitude = digits.strip_prefix("0x").map_or_else(
+        || digits.parse::<i128>(),
+        |hex| i128::from_str_radix(hex, 16),
+    );
+    let Ok(magnitude) = magnitude else {
+        return literal.clone();
+    };
+    let value = if negative { -magnitude } else { magnitude };
+    // the value as the carrier of the same width holds it (two's complement bit pattern)
+    match r#const.r#type {
+        Uint8 | Int8 => (value as i8).to_string(),
+        Uint16 | Int16 => (value as u16).to_string(),
+        Uint32 | Int32 => (value as i32).to_string(),
+        Uint64 | Int64 => format!("{}L", value as i64),
+        Float32 | Float64 => unreachable!(),
+    }
 }
 
 pub fn emit_const(r#const: &Const) -> String {
